@@ -339,6 +339,37 @@ func c11Codec(kind string, v jm) (enc func() ([]byte, error), dec func([]byte) (
 			}
 			return jm{"class": int(dt.Class), "ver": int(dt.Version), "size": int(ct.Size), "members": mem}, nil
 		}
+	case "dt_compound_n":
+		n, ver := gi(v, "n"), gi(v, "ver")
+		enc = func() ([]byte, error) {
+			fields := make([]verifapi.CompoundFieldDef, 0, n)
+			for i := 0; i < n; i++ {
+				mt, err := memberMsg(jm{"c": float64(0), "size": float64(4), "bits": float64(8)})
+				if err != nil {
+					return nil, err
+				}
+				fields = append(fields, verifapi.CompoundFieldDef{Name: fmt.Sprintf("m%d", i), Offset: uint32(4 * i), Type: mt})
+			}
+			if ver == 1 {
+				return verifapi.EncodeCompoundDatatypeV1(uint32(4*n), fields)
+			}
+			return verifapi.EncodeCompoundDatatypeV3(uint32(4*n), fields)
+		}
+		dec = func(b []byte) (jm, error) {
+			dt, err := verifapi.ParseDatatypeMessage(b)
+			if err != nil {
+				return nil, err
+			}
+			ct, err := verifapi.ParseCompoundType(dt)
+			if err != nil {
+				return nil, err
+			}
+			out := jm{"class": int(dt.Class), "ver": int(dt.Version), "size": int(ct.Size), "n": len(ct.Members), "lastoff": -1, "lastname": ""}
+			if k := len(ct.Members); k > 0 {
+				out["lastoff"], out["lastname"] = int(ct.Members[k-1].Offset), ct.Members[k-1].Name
+			}
+			return out, nil
+		}
 	case "dataspace":
 		dims, max := ulist(gl(v, "dims")), ulist(gl(v, "max"))
 		enc = func() ([]byte, error) {
